@@ -169,6 +169,64 @@ theorem Store.steal {cfg : Cfg} {P : Nat → Prop} (L : SmallLaws cfg.ops cfg.n)
     rw [hcnt id hid (by omega)]
     exact hd.cnt id hid hne
 
+/-- a container in inline state owns no heap block -/
+theorem OwnsBlk.small_none {cfg : Cfg} (L : SmallLaws cfg.ops cfg.n) {m : Mem α} {e : Nat} {w : VB} (hws : m.ws[e]? = some w)
+    (hs : cfg.ops.isSmall w = true) (id : Nat) : ¬ OwnsBlk cfg e m id := by
+  rw [OwnsBlk.iff hws, regionOf_small L e w hs]
+  rintro ⟨h, _⟩; cases h
+
+/-- words `wc'` of `c` (in `m'`) that took over state, capacity and pointer of the words `wd` of `d` (in `m`): `c` owns afterwards
+    exactly what `d` owned before -/
+theorem OwnsBlk.transfer {cfg : Cfg} {P : Nat → Prop} (L : SmallLaws cfg.ops cfg.n) {m m' : Mem α} {c d : Nat} {wc' wd : VB}
+    (hws' : m'.ws[c]? = some wc') (hws : m.ws[d]? = some wd) (hok : SOkP P cfg.ops cfg.n wd)
+    (hsm : cfg.ops.isSmall wc' = cfg.ops.isSmall wd) (hcap : cfg.ops.capacity wc' = cfg.ops.capacity wd)
+    (hdyn : cfg.ops.isSmall wd = false → wc'.dyn = wd.dyn) (id : Nat) : OwnsBlk cfg c m' id ↔ OwnsBlk cfg d m id := by
+  rw [OwnsBlk.iff hws', OwnsBlk.iff hws]
+  cases hs : cfg.ops.isSmall wd with
+  | true =>
+    rw [regionOf_small L c wc' (hsm.trans hs), regionOf_small L d wd hs]
+    constructor <;> (rintro ⟨h, _⟩; cases h)
+  | false =>
+    have hreg : regionOf cfg c wc' = regionOf cfg d wd := by
+      unfold regionOf
+      rw [L.begin_small, L.begin_small, hs, hsm.trans hs, hdyn hs]
+      simp only [Bool.false_eq_true, ↓reduceIte]
+      rcases hok.2 hs with ⟨id, hdy, _, _⟩ | ⟨hdy, _⟩ <;> rw [hdy] <;> rfl
+    rw [hreg, hcap]
+
+/-- block accounting of `c = std::move(d)` / `Vector(Vector&& d)`: `d` owns no block afterwards; what `c` owns afterwards was
+    owned by `c` or by `d` before; and a block of `c` or `d` that still exists is owned by `c` -/
+structure MoveAcct (cfg : Cfg) (c d : Nat) (m m' : Mem α) : Prop where
+  dNone : ∀ id, ¬ OwnsBlk cfg d m' id
+  origin : ∀ id, OwnsBlk cfg c m' id → OwnsBlk cfg c m id ∨ OwnsBlk cfg d m id
+  kept : ∀ id, (m'.buf (.blk id)).isSome → OwnsBlk cfg c m id ∨ OwnsBlk cfg d m id → OwnsBlk cfg c m' id
+
+/-- `c` took over the block of `d`; its own block (if any) is gone -/
+theorem MoveAcct.ofSteal {cfg : Cfg} {c d : Nat} {m m' : Mem α} (hd' : ∀ id, ¬ OwnsBlk cfg d m' id)
+    (h : ∀ id, OwnsBlk cfg c m' id ↔ OwnsBlk cfg d m id) (gone : ∀ id, OwnsBlk cfg c m id → m'.buf (.blk id) = none) :
+    MoveAcct cfg c d m m' := by
+  refine ⟨hd', fun id ho => Or.inr ((h id).mp ho), ?_⟩
+  rintro id hid (ho | ho)
+  · rw [gone id ho] at hid; cases hid
+  · exact (h id).mpr ho
+
+/-- `c` kept its block; `d` owned none -/
+theorem MoveAcct.ofKeep {cfg : Cfg} {c d : Nat} {m m' : Mem α} (hd' : ∀ id, ¬ OwnsBlk cfg d m' id)
+    (h : ∀ id, OwnsBlk cfg c m' id ↔ OwnsBlk cfg c m id) (hdm : ∀ id, ¬ OwnsBlk cfg d m id) : MoveAcct cfg c d m m' := by
+  refine ⟨hd', fun id ho => Or.inl ((h id).mp ho), ?_⟩
+  rintro id _ (ho | ho)
+  · exact (h id).mpr ho
+  · exact absurd ho (hdm id)
+
+/-- `c` owns no block any more (its old block, if any, is gone); `d` owned none -/
+theorem MoveAcct.ofNone {cfg : Cfg} {c d : Nat} {m m' : Mem α} (hd' : ∀ id, ¬ OwnsBlk cfg d m' id)
+    (hc' : ∀ id, ¬ OwnsBlk cfg c m' id) (hdm : ∀ id, ¬ OwnsBlk cfg d m id)
+    (gone : ∀ id, OwnsBlk cfg c m id → m'.buf (.blk id) = none) : MoveAcct cfg c d m m' := by
+  refine ⟨hd', fun id ho => absurd ho (hc' id), ?_⟩
+  rintro id hid (ho | ho)
+  · rw [gone id ho] at hid; cases hid
+  · exact absurd ho (hdm id)
+
 /-! ### move construction -/
 
 /-- outcome of `Vector(Vector&& d)` into pool slot `c`: `c` holds what `d` held, `d` is empty (inline state); no exception;
@@ -182,6 +240,7 @@ def MoveCtorPost (cfg : Cfg) (Ok : VB → Prop) (c d : Nat) (m : Mem α) (ys : L
     ∧ (∀ id, (m.buf (.blk id)).isSome → (m'.buf (.blk id)).isSome)
     ∧ (regionOf cfg d wd ≠ .inl d →
         m' = ({ m with ws := (m.ws.set c wc').set d wd' } : Mem α) ∧ regionOf cfg c wc' = regionOf cfg d wd)
+    ∧ (∀ id, OwnsBlk cfg c m' id ↔ OwnsBlk cfg d m id) ∧ (∀ id, ¬ OwnsBlk cfg d m' id)
 
 theorem moveConstruct_small {cfg : Cfg} {P : Nat → Prop} (hfl : cfg.flavour = .small) (L : SmallLaws cfg.ops cfg.n)
     (ML : MoveLaws cfg.ops cfg.n) (m : Mem α) (c d : Nat) (ys : List α) (wd : VB) (hne : c ≠ d) (hc : c < m.ws.length)
@@ -213,6 +272,12 @@ theorem moveConstruct_small {cfg : Cfg} {P : Nat → Prop} (hfl : cfg.flavour = 
     intro m3 h3
     show (m3.ws.set c wc').set d wd' = _
     rw [h3, hws1, List.set_set]
+  have hown : ∀ m4 : Mem α, m4.ws = (m.ws.set c wc').set d wd' →
+      (∀ id, OwnsBlk cfg c m4 id ↔ OwnsBlk cfg d m id) ∧ (∀ id, ¬ OwnsBlk cfg d m4 id) := by
+    intro m4 h4
+    have hwc : m4.ws[c]? = some wc' := by rw [h4]; exact ws_fst _ _ _ _ _ hc hne
+    have hwd : m4.ws[d]? = some wd' := by rw [h4]; exact ws_snd _ _ _ _ _ (by simpa using hdl)
+    exact ⟨OwnsBlk.transfer L hwc hd.ws hd.ok k7 k8 k9, OwnsBlk.small_none L hwd k5⟩
   cases hs : cfg.ops.isSmall w2 with
   | true =>
     -- inline source: relocate its elements into the inline storage of `c`
@@ -240,7 +305,7 @@ theorem moveConstruct_small {cfg : Cfg} {P : Nat → Prop} (hfl : cfg.flavour = 
     have hbc : m3.buf (.inl c) = some (lives ys ++ raws (cfg.n - ys.length)) := by rw [hb3, View.set_same]; rfl
     have hbdd : m3.buf (.inl d) = some (raws cfg.n) := by
       rw [hb3, View.set_other _ _ _ _ hner, View.set_same, List.nil_append, raws_append]; congr 2; omega
-    refine ⟨hr, wc', wd', ?_, ?_, k8, ?_, ?_, ?_⟩
+    refine ⟨hr, wc', wd', ?_, ?_, k8, ?_, ?_, ?_, hown _ hws4⟩
     · exact VRepW.inline L (by rw [hws4]; exact ws_fst _ _ _ _ _ hc hne) k1 k7 (by rw [k3, hsz]) (by rw [withWs_buf]; exact hbc)
     · exact VRepW.inline L (by rw [hws4]; exact ws_snd _ _ _ _ _ (by simpa using hdl)) k2 k5 (by rw [k4]; rfl)
         (by rw [withWs_buf, hbdd]; simp [lives])
@@ -279,7 +344,8 @@ theorem moveConstruct_small {cfg : Cfg} {P : Nat → Prop} (hfl : cfg.flavour = 
         (lives ys ++ raws (cfg.ops.capacity w2 - ys.length)) :=
       Store.steal L hd.store hs k1 k7 k8 (k9 rfl) (ws_fst _ _ _ _ _ hc hne) (fun _ => by rw [withWs_buf]) (fun _ _ _ => rfl)
         (by rw [withWs_buf]; exact hraw)
-    refine ⟨hr, wc', wd', ⟨by rw [k8]; exact hst, by rw [k3, hsz]⟩, ?_, k8, ?_, fun id hid => by rw [withWs_buf]; exact hid, ?_⟩
+    refine ⟨hr, wc', wd', ⟨by rw [k8]; exact hst, by rw [k3, hsz]⟩, ?_, k8, ?_, fun id hid => by rw [withWs_buf]; exact hid, ?_,
+      hown _ rfl⟩
     · exact VRepW.inline L (ws_snd _ _ _ _ _ (by simpa using hdl)) k2 k5 (by rw [k4]; rfl) (by rw [withWs_buf, hinld]; simp [lives])
     · exact ⟨rfl, rfl, rfl, by simp, fun e hec hed => ws_other _ _ _ _ _ _ hec hed, fun _ _ => by rw [withWs_buf],
         fun id hid => by rw [withWs_buf] at hid; exact hid, fun _ _ => rfl⟩
@@ -380,6 +446,7 @@ def StealPost (cfg : Cfg) (Ok : VB → Prop) (c d : Nat) (m : Mem α) (ys : List
     ∧ cfg.ops.capacity wc' = cfg.ops.capacity wd ∧ regionOf cfg c wc' = regionOf cfg d wd
     ∧ Frame2 c d [regionOf cfg c wc] m m'
     ∧ (∀ id, regionOf cfg c wc = .blk id → 0 < cfg.ops.capacity wc → m'.buf (.blk id) = none)
+    ∧ cfg.ops.isSmall wd' = true
 
 theorem moveAssign_steal {cfg : Cfg} {P : Nat → Prop} (hfl : cfg.flavour = .small) (L : SmallLaws cfg.ops cfg.n)
     (ML : MoveLaws cfg.ops cfg.n) (m : Mem α) (c d : Nat) (xs ys : List α) (wc wd : VB) (hne : c ≠ d)
@@ -440,7 +507,7 @@ theorem moveAssign_steal {cfg : Cfg} {P : Nat → Prop} (hfl : cfg.flavour = .sm
       rw [L.begin_small, L.begin_small, hsd, s1, s3]
       simp only [Bool.false_eq_true, ↓reduceIte]
       rcases hd.ok.2 hsd with ⟨id, hdy, _, _⟩ | ⟨hdy, _⟩ <;> rw [hdy] <;> rfl
-    refine ⟨hr, wc', wd', ⟨by rw [s2]; exact hsteal, by rw [k3, hd.size]⟩, ?_, s2, hregc', ?_, ?_⟩
+    refine ⟨hr, wc', wd', ⟨by rw [s2]; exact hsteal, by rw [k3, hd.size]⟩, ?_, s2, hregc', ?_, ?_, k5⟩
     · exact VRepW.inline L (by rw [hws4]; exact ws_snd _ _ _ _ _ (by simpa using hdl)) k2 k5 (by rw [k4]; rfl)
         (by rw [withWs_buf, hrel.other _ hnd, hinld]; simp [lives])
     · refine ⟨hrel.keep.cat, hrel.keep.hr, hrel.keep.nid, by rw [hws4]; simp,
@@ -527,6 +594,7 @@ def MoveAssignPost (cfg : Cfg) (Ok : VB → Prop) (c d : Nat) (m : Mem α) (ys :
   fun res m' => res = .ok () ∧ ∃ wc' wd', VRepW cfg Ok c m' ys wc' ∧ VRepW cfg Ok d m' [] wd'
     ∧ Frame2 c d [regionOf cfg c wc, .inl c, .inl d] m m'
     ∧ (∀ id, regionOf cfg c wc = .blk id → 0 < cfg.ops.capacity wc → regionOf cfg c wc' ≠ .blk id → m'.buf (.blk id) = none)
+    ∧ MoveAcct cfg c d m m'
 
 /-- move assignment from a source in inline state: the elements are moved one by one (into the heap buffer of `c` when it is
     large enough, else into its inline storage after the heap buffer was returned) -/
@@ -557,6 +625,12 @@ theorem moveAssign_inline {cfg : Cfg} {P : Nat → Prop} (hfl : cfg.flavour = .s
     · rw [hregd, hcapd] at hb; exact hb
   have hner : Region.inl d ≠ Region.inl c := by intro e; injection e with e; exact hne e.symm
   have hlec := hc.le
+  have hdm : ∀ id, ¬ OwnsBlk cfg d m1 id := OwnsBlk.small_none L hd.ws hsd
+  have hfin : ∀ m4 : Mem α, m4.ws = (m1.ws.set c wc').set d wd' →
+      m4.ws[c]? = some wc' ∧ ∀ id, ¬ OwnsBlk cfg d m4 id := by
+    intro m4 h4
+    have hwd : m4.ws[d]? = some wd' := by rw [h4]; exact ws_snd _ _ _ _ _ (by simpa using hdl)
+    exact ⟨by rw [h4]; exact ws_fst _ _ _ _ _ hcl hne, OwnsBlk.small_none L hwd k5⟩
   cases hs : cfg.ops.isSmall w1 with
   | true =>
     -- both inline
@@ -582,7 +656,9 @@ theorem moveAssign_inline {cfg : Cfg} {P : Nat → Prop} (hfl : cfg.flavour = .s
       show (m3.ws.set c wc').set d wd' = _
       rw [hk3.ws]
     have hfr := Frame2.ofSet2 (c := c) (d := d) wc' wd' hk3 hb3 (by rw [hbd]; rfl) (by rw [hbc]; rfl)
-    refine ⟨hr, wc', wd', ?_, ?_, hfr.mono (by intro r hr'; simp at hr' ⊢; rcases hr' with rfl | rfl <;> simp), ?_⟩
+    refine ⟨hr, wc', wd', ?_, ?_, hfr.mono (by intro r hr'; simp at hr' ⊢; rcases hr' with rfl | rfl <;> simp), ?_,
+      MoveAcct.ofNone (hfin _ hws4).2 (OwnsBlk.small_none L (hfin _ hws4).1 i1) hdm
+        (fun id ho => absurd ho (OwnsBlk.small_none L hc.ws hs id))⟩
     · refine VRepW.inline L (by rw [hws4]; exact ws_fst _ _ _ _ _ hcl hne) k1 i1 (by rw [k3, hd.size]) ?_
       rw [withWs_buf, hb3, View.set_same]
       simp only [List.nil_append, List.append_nil]
@@ -636,7 +712,8 @@ theorem moveAssign_inline {cfg : Cfg} {P : Nat → Prop} (hfl : cfg.flavour = .s
             rw [hk3.cnt]; exact hc.store.cnt id hid hne', fun _ _ => ?_⟩
           rw [hb3, View.set_other _ _ _ _ (by intro e; cases e), View.set_other _ _ _ _ (Ne.symm hner)]; exact hinlc
         refine ⟨hr, wc', wd', ⟨?_, by rw [k3, hd.size]⟩, ?_,
-          hfr.mono (by intro r hr'; simp at hr' ⊢; rcases hr' with rfl | rfl <;> simp [hregc c]), ?_⟩
+          hfr.mono (by intro r hr'; simp at hr' ⊢; rcases hr' with rfl | rfl <;> simp [hregc c]), ?_,
+          MoveAcct.ofKeep (hfin _ hws4).2 (OwnsBlk.transfer L (hfin _ hws4).1 hc.ws hc.ok (j1.trans hs.symm) j2 (fun _ => j3)) hdm⟩
         · rw [j2]
           exact Store.steal L hst3 hs k1 j1 j2 j3 (by rw [hws4]; exact ws_fst _ _ _ _ _ hcl hne) (fun _ => by rw [withWs_buf])
             (fun _ _ _ => rfl) (by rw [withWs_buf]; exact hst3.inl (by rw [hregc c]; intro e; cases e) hfl)
@@ -656,7 +733,8 @@ theorem moveAssign_inline {cfg : Cfg} {P : Nat → Prop} (hfl : cfg.flavour = .s
         refine Post.mono (commit2_post m3 c d wc' wd') ?_
         rintro res m4 ⟨hr, rfl⟩
         have hfr := Frame2.sameBuf (c := c) (d := d) wc' wd' (rfl : m3 = m3)
-        refine ⟨hr, wc', wd', ⟨?_, by rw [k3, hd.size]⟩, ?_, hfr.mono (by simp), ?_⟩
+        refine ⟨hr, wc', wd', ⟨?_, by rw [k3, hd.size]⟩, ?_, hfr.mono (by simp), ?_,
+          MoveAcct.ofKeep (hfin _ rfl).2 (OwnsBlk.transfer L (hfin _ rfl).1 hc.ws hc.ok (j1.trans hs.symm) j2 (fun _ => j3)) hdm⟩
         · rw [j2]
           exact Store.steal L hc.store hs k1 j1 j2 j3 (ws_fst _ _ _ _ _ hcl hne) (fun _ => by rw [withWs_buf])
             (fun _ _ _ => rfl) (by rw [withWs_buf]; exact hinlc)
@@ -686,7 +764,15 @@ theorem moveAssign_inline {cfg : Cfg} {P : Nat → Prop} (hfl : cfg.flavour = .s
         rw [hk3.ws, hrel.keep.ws]
       have hfr := (Frame2.ofReleased d hrel).trans
         (Frame2.ofSet2 (c := c) (d := d) wc' wd' hk3 hb3 (by rw [h2d]; rfl) (by rw [h2c]; rfl))
-      refine ⟨hr, wc', wd', ?_, ?_, hfr.mono (by intro r hr'; simp at hr' ⊢; rcases hr' with rfl | rfl | rfl <;> simp), ?_⟩
+      have hgone4 : ∀ id, regionOf cfg c w1 = .blk id → 0 < cfg.ops.capacity w1 →
+          ({ m3 with ws := (m3.ws.set c wc').set d wd' } : Mem α).buf (.blk id) = none := by
+        intro id hid hp
+        rw [withWs_buf, hb3, View.set_other _ _ _ _ (by intro e; cases e), View.set_other _ _ _ _ (by intro e; cases e)]
+        exact hrel.gone id hid hp
+      refine ⟨hr, wc', wd', ?_, ?_, hfr.mono (by intro r hr'; simp at hr' ⊢; rcases hr' with rfl | rfl | rfl <;> simp),
+        fun id hid hp _ => hgone4 id hid hp,
+        MoveAcct.ofNone (hfin _ hws4).2 (OwnsBlk.small_none L (hfin _ hws4).1 j1) hdm
+          (fun id ho => hgone4 id ((OwnsBlk.iff hc.ws id).mp ho).1 ((OwnsBlk.iff hc.ws id).mp ho).2)⟩
       · refine VRepW.inline L (by rw [hws4]; exact ws_fst _ _ _ _ _ hcl hne) k1 j1 (by rw [k3, hd.size]) ?_
         rw [withWs_buf, hb3, View.set_same]
         simp [lives]
@@ -694,9 +780,6 @@ theorem moveAssign_inline {cfg : Cfg} {P : Nat → Prop} (hfl : cfg.flavour = .s
         rw [withWs_buf, hb3, View.set_other _ _ _ _ hner, View.set_same, List.nil_append, raws_append]
         simp only [lives, List.map_nil, List.nil_append, List.length_nil, Nat.sub_zero]
         congr 2; omega
-      · intro id hid hp _
-        rw [withWs_buf, hb3, View.set_other _ _ _ _ (by intro e; cases e), View.set_other _ _ _ _ (by intro e; cases e)]
-        exact hrel.gone id hid hp
 
 /-- `c = std::move(d)` for two distinct SmallVectors whose storages are distinct (or both empty): all cases -/
 theorem moveAssign_small {cfg : Cfg} {P : Nat → Prop} (hfl : cfg.flavour = .small) (L : SmallLaws cfg.ops cfg.n)
@@ -708,8 +791,12 @@ theorem moveAssign_small {cfg : Cfg} {P : Nat → Prop} (hfl : cfg.flavour = .sm
   | true => exact moveAssign_inline hfl L ML m c d xs ys wc wd hne hc hd hsd
   | false =>
     refine Post.mono (moveAssign_steal hfl L ML m c d xs ys wc wd hne hc hd hdisj hsd) ?_
-    rintro res m' ⟨hr, wc', wd', h1, h2, _, _, hfr, hgone⟩
-    exact ⟨hr, wc', wd', h1, h2, hfr.mono (by intro r hr'; simp at hr' ⊢; exact Or.inl hr'), fun id hid hp _ => hgone id hid hp⟩
+    rintro res m' ⟨hr, wc', wd', h1, h2, hcap, hreg, hfr, hgone, hsm'⟩
+    refine ⟨hr, wc', wd', h1, h2, hfr.mono (by intro r hr'; simp at hr' ⊢; exact Or.inl hr'), fun id hid hp _ => hgone id hid hp, ?_⟩
+    refine MoveAcct.ofSteal (OwnsBlk.small_none L h2.ws hsm') (fun id => ?_) (fun id ho => ?_)
+    · rw [OwnsBlk.iff h1.ws, OwnsBlk.iff hd.ws, hreg, hcap]
+    · have := (OwnsBlk.iff hc.ws id).mp ho
+      exact hgone id this.1 this.2
 
 /-- self move-assignment does nothing -/
 theorem moveAssign_self (cfg : Cfg) (m : Mem α) (c : Nat) :
@@ -725,6 +812,7 @@ theorem moveAssign_self (cfg : Cfg) (m : Mem α) (c : Nat) :
 def SwapPost (cfg : Cfg) (Ok : VB → Prop) (c d : Nat) (m : Mem α) (xs ys : List α) : Except Stop Unit → Mem α → Prop :=
   fun res m' => res = .ok () ∧ ∃ wc' wd', VRepW cfg Ok c m' ys wc' ∧ VRepW cfg Ok d m' xs wd'
     ∧ Frame2 c d [.inl c, .inl d] m m'
+    ∧ (∀ id, OwnsBlk cfg c m' id ↔ OwnsBlk cfg d m id) ∧ (∀ id, OwnsBlk cfg d m' id ↔ OwnsBlk cfg c m id)
 
 theorem swapSame_small {cfg : Cfg} {P : Nat → Prop} (hfl : cfg.flavour = .small) (L : SmallLaws cfg.ops cfg.n)
     (ML : MoveLaws cfg.ops cfg.n) (m : Mem α) (c d : Nat) (xs ys : List α) (wc wd : VB) (hne : c ≠ d)
@@ -770,6 +858,12 @@ theorem swapSame_small {cfg : Cfg} {P : Nat → Prop} (hfl : cfg.flavour = .smal
       rw [h3]; exact ws_fst _ _ _ _ _ hcl hne
     · show ((m3.ws.set c wc').set d wd')[d]? = _
       rw [h3]; exact ws_snd _ _ _ _ _ (by simpa using hdl)
+  have hown : ∀ m3 : Mem α, m3.ws = m1.ws →
+      (∀ id, OwnsBlk cfg c ({ m3 with ws := (m3.ws.set c wc').set d wd' } : Mem α) id ↔ OwnsBlk cfg d m1 id)
+      ∧ (∀ id, OwnsBlk cfg d ({ m3 with ws := (m3.ws.set c wc').set d wd' } : Mem α) id ↔ OwnsBlk cfg c m1 id) := by
+    intro m3 h3
+    obtain ⟨hwc, hwd⟩ := hwsf m3 h3
+    exact ⟨OwnsBlk.transfer L hwc hd.ws hd.ok k7 k5 k9, OwnsBlk.transfer L hwd hc.ws hc.ok k8 k6 k10⟩
   cases hs1 : cfg.ops.isSmall w1 with
   | true =>
     obtain ⟨hcapc, hbc⟩ := inlineBuf c xs w1 hc hs1
@@ -790,7 +884,7 @@ theorem swapSame_small {cfg : Cfg} {P : Nat → Prop} (hfl : cfg.flavour = .smal
       refine Post.mono (commit2_post m3 c d wc' wd') ?_
       rintro res m4 ⟨hr, rfl⟩
       obtain ⟨hwc, hwd⟩ := hwsf m3 hk3.ws
-      refine ⟨hr, wc', wd', ?_, ?_, Frame2.ofSet2 wc' wd' hk3 hb3 (by rw [hbc]; rfl) (by rw [hbd]; rfl)⟩
+      refine ⟨hr, wc', wd', ?_, ?_, Frame2.ofSet2 wc' wd' hk3 hb3 (by rw [hbc]; rfl) (by rw [hbd]; rfl), hown m3 hk3.ws⟩
       · refine VRepW.inline L hwc k1 k7 (by rw [k3, hd.size]) ?_
         rw [withWs_buf, hb3, View.set_other _ _ _ _ hner, View.set_same]
         simp only [List.nil_append, List.append_nil]
@@ -827,7 +921,8 @@ theorem swapSame_small {cfg : Cfg} {P : Nat → Prop} (hfl : cfg.flavour = .smal
         rintro res m4 ⟨hr, rfl⟩
         obtain ⟨hwc, hwd⟩ := hwsf m3 hk3.ws
         obtain ⟨idd, hregd, _⟩ := hd.ok.heap L hs2
-        refine ⟨hr, wc', wd', ⟨?_, by rw [k3, hd.size]⟩, ?_, Frame2.ofSet2 wc' wd' hk3 hb3 (by rw [hbc]; rfl) (by rw [hinld]; rfl)⟩
+        refine ⟨hr, wc', wd', ⟨?_, by rw [k3, hd.size]⟩, ?_, Frame2.ofSet2 wc' wd' hk3 hb3 (by rw [hbc]; rfl) (by rw [hinld]; rfl),
+          hown m3 hk3.ws⟩
         · rw [k5]
           refine Store.steal L hd.store hs2 k1 k7 k5 (k9 rfl) hwc ?_ (fun id _ _ => by rw [withWs_cnt]; exact hk3.cnt id) ?_
           · intro _
@@ -871,7 +966,7 @@ theorem swapSame_small {cfg : Cfg} {P : Nat → Prop} (hfl : cfg.flavour = .smal
         obtain ⟨hwc, hwd⟩ := hwsf m3 hk3.ws
         have hfr := Frame2.ofSet2 (c := c) (d := d) wc' wd' hk3 hb3 (by rw [hbd]; rfl) (by rw [hinlc]; rfl)
         refine ⟨hr, wc', wd', ?_, ⟨?_, by rw [k4, hc.size]⟩,
-          hfr.mono (by intro r hr'; simp at hr' ⊢; rcases hr' with rfl | rfl <;> simp)⟩
+          hfr.mono (by intro r hr'; simp at hr' ⊢; rcases hr' with rfl | rfl <;> simp), hown m3 hk3.ws⟩
         · refine VRepW.inline L hwc k1 k7 (by rw [k3, hd.size]) ?_
           rw [withWs_buf, hb3, View.set_same]
         · rw [k6]
@@ -898,7 +993,7 @@ theorem swapSame_small {cfg : Cfg} {P : Nat → Prop} (hfl : cfg.flavour = .smal
         rintro res m4 ⟨hr, rfl⟩
         obtain ⟨hwc, hwd⟩ := hwsf m3 rfl
         refine ⟨hr, wc', wd', ⟨?_, by rw [k3, hd.size]⟩, ⟨?_, by rw [k4, hc.size]⟩,
-          (Frame2.sameBuf (c := c) (d := d) wc' wd' (rfl : m3 = m3)).mono (by simp)⟩
+          (Frame2.sameBuf (c := c) (d := d) wc' wd' (rfl : m3 = m3)).mono (by simp), hown m3 rfl⟩
         · rw [k5]
           exact Store.steal L hd.store hs2 k1 k7 k5 (k9 rfl) hwc (fun _ => by rw [withWs_buf]) (fun _ _ _ => rfl)
             (by rw [withWs_buf]; exact hinlc)
